@@ -59,6 +59,8 @@ func init() {
 	}
 	props["C18"].Race = true
 	props["C01"].Fuzz = []fuzzTarget{{Name: "FuzzC01Decode", Thorough: 180 * time.Second}}
+	props["C04"].Fuzz = []fuzzTarget{{Name: "FuzzC04Frame", Thorough: 150 * time.Second}}
+	props["C06"].Fuzz = []fuzzTarget{{Name: "FuzzC06Frame", Thorough: 150 * time.Second}}
 	props["C09"].Fuzz = []fuzzTarget{{Name: "FuzzC09Reencode", Thorough: 180 * time.Second}}
 	props["C13"].Fuzz = []fuzzTarget{{Name: "FuzzC13TWCC", Thorough: 120 * time.Second}}
 	props["C17"].Fuzz = []fuzzTarget{{Name: "FuzzC17String", Thorough: 120 * time.Second}}
